@@ -85,6 +85,12 @@ class Ctx:
             raise MachineryError(f"vacuous run {what}: actions never taken: {missing}")
 
     # ---- finish -----------------------------------------------------------------------------
+    def unlisted_violations(self):
+        """violations recorded so far that no kind=finding entry of known_findings.json lists"""
+        known = load_known(self.pid)
+        return [v for v in self.viol
+                if not any(e.get("kind") == "finding" and fnmatch.fnmatchcase(v["sig"], e["signature"]) for e in known)]
+
     def finish(self) -> int:
         known = load_known(self.pid)
         unlisted = []
@@ -121,7 +127,9 @@ class Ctx:
             print(f"  detail: {d[:1500]}")
         cov = dict(self.cov)
         if not cov["samples"]:
-            raise MachineryError("no samples recorded")
+            if not unlisted:
+                raise MachineryError("no samples recorded")
+            cov["samples"] = [{"violation": unlisted[0]["sig"]}]
         cov["known_findings_seen"] = {s: n for s, (e, n) in listed.items()}
         if self.notes:
             cov["notes"] = self.notes
